@@ -17,6 +17,7 @@
 //     deferred calls run with what may be held at that point (deferred calls: with everything that may be held at
 //     the return, before any deferred unlock);
 //   - TryLock never waits: no row, but the lock may be held afterwards.
+//
 // Calls that cannot be followed (function values, interface methods) while something may be held are listed in
 // acq_notes: what they acquire is not in the table.
 package main
@@ -113,8 +114,11 @@ func summaryAddr(v ssa.Value, depth int) bool {
 	return false
 }
 
-func (a *acqAn) ctxKey(f *ssa.Function, held map[string]string, bind map[ssa.Value]string) string {
+func (a *acqAn) ctxKey(f *ssa.Function, held map[string]string, bind map[ssa.Value]string, fns map[ssa.Value]fnBind) string {
 	var b []string
+	for v, fb := range fns {
+		b = append(b, fmt.Sprintf("%s=func %p", v.Name(), fb.fn))
+	}
 	for v, cell := range bind {
 		b = append(b, v.Name()+"="+cell)
 	}
@@ -163,11 +167,11 @@ func (a *acqAn) row(f *ssa.Function, ins ssa.Instruction, cell, mode string, hel
 }
 
 // analyze: may-held at the return of f when entered with `held` and the parameter bindings `bind`
-func (a *acqAn) analyze(f *ssa.Function, held map[string]string, bind map[ssa.Value]string) map[string]string {
+func (a *acqAn) analyze(f *ssa.Function, held map[string]string, bind map[ssa.Value]string, fns map[ssa.Value]fnBind) map[string]string {
 	if len(f.Blocks) == 0 {
 		return held
 	}
-	key := a.ctxKey(f, held, bind)
+	key := a.ctxKey(f, held, bind, fns)
 	if r, ok := a.memo[key]; ok {
 		return r
 	}
@@ -181,7 +185,7 @@ func (a *acqAn) analyze(f *ssa.Function, held map[string]string, bind map[ssa.Va
 	a.depth++
 	defer func() { a.depth--; delete(a.busy, key) }()
 
-	c := &accCtx{held: map[string]string{}, after: map[string]bool{}, bind: bind}
+	c := &accCtx{held: map[string]string{}, after: map[string]bool{}, bind: bind, fns: fns}
 	in := make([]mayState, len(f.Blocks))
 	outS := make([]mayState, len(f.Blocks))
 	for i := range in {
@@ -310,6 +314,21 @@ func (a *acqAn) call(f *ssa.Function, c *accCtx, ins ssa.Instruction, cc *ssa.Ca
 	}
 	sc := cc.StaticCallee()
 	if sc == nil {
+		if fb, ok := c.fns[cc.Value]; ok {
+			// a call of a func-typed parameter that was given a known function: it runs here, with what may be held here
+			nb := map[ssa.Value]string{}
+			for i, arg := range cc.Args {
+				if i < len(fb.fn.Params) {
+					if cell := an.cellOf(arg, c, 0); cell != "" {
+						nb[fb.fn.Params[i]] = cell
+					}
+				}
+			}
+			if fb.val != nil {
+				an.bindClosure(fb.val, fb.fn, fb.ctx, &accCtx{bind: nb})
+			}
+			return a.analyze(fb.fn, copyHeld(held), nb, map[ssa.Value]fnBind{})
+		}
 		note("call through a function value")
 		return nil
 	}
@@ -321,16 +340,22 @@ func (a *acqAn) call(f *ssa.Function, c *accCtx, ins ssa.Instruction, cc *ssa.Ca
 				nb := map[ssa.Value]string{}
 				nc := &accCtx{bind: nb}
 				an.bindClosure(arg, fn, c, nc)
-				a.analyze(fn, copyHeld(held), nb)
+				a.analyze(fn, copyHeld(held), nb, map[ssa.Value]fnBind{})
 			}
 		}
 		return nil
 	}
 	nb := map[ssa.Value]string{}
+	nf := map[ssa.Value]fnBind{}
 	for i, arg := range cc.Args {
 		if i < len(sc.Params) {
 			if cell := an.cellOf(arg, c, 0); cell != "" {
 				nb[sc.Params[i]] = cell
+			}
+			if fn := funcOf(arg); fn != nil && an.libPkgs[fn.Pkg] != "" {
+				nf[sc.Params[i]] = fnBind{fn: fn, val: arg, ctx: c}
+			} else if fb, ok := c.fns[arg]; ok {
+				nf[sc.Params[i]] = fb
 			}
 		}
 	}
@@ -339,14 +364,14 @@ func (a *acqAn) call(f *ssa.Function, c *accCtx, ins ssa.Instruction, cc *ssa.Ca
 		an.bindClosure(mc, sc, c, nc)
 	}
 	if _, isGo := ins.(*ssa.Go); isGo {
-		a.analyze(sc, map[string]string{}, nb)
+		a.analyze(sc, map[string]string{}, nb, nf)
 		return nil
 	}
 	if _, isDefer := ins.(*ssa.Defer); isDefer {
-		a.analyze(sc, copyHeld(held), nb)
+		a.analyze(sc, copyHeld(held), nb, nf)
 		return nil
 	}
-	return a.analyze(sc, copyHeld(held), nb)
+	return a.analyze(sc, copyHeld(held), nb, nf)
 }
 
 // acquisitions: the table, from the same entry points as the access table
@@ -354,7 +379,7 @@ func (an *accAn) acquisitions(roots []*ssa.Function, out *Out) {
 	a := &acqAn{an: an, rows: map[string]*AcqSite{}, memo: map[string]map[string]string{}, busy: map[string]bool{}, notes: map[string]bool{}, summary: map[string]bool{}}
 	for _, f := range roots {
 		a.entry = fnName(f)
-		a.analyze(f, map[string]string{}, map[ssa.Value]string{})
+		a.analyze(f, map[string]string{}, map[ssa.Value]string{}, map[ssa.Value]fnBind{})
 	}
 	out.Acquisitions = []AcqSite{}
 	for _, r := range a.rows {
